@@ -15,24 +15,40 @@ from engine.sym import check, must_not_raise, require
 STEPS = "CDEFGAB"
 
 
-def interpret(elements, start_pos, on_divisions=None):
-    """independent MusicXML position bookkeeping: returns [(onset, duration, step, alter, octave, voice, staff, grace, tie_start, tie_stop, rest)]"""
+def interpret(elements, start_pos, on_divisions=None, div0=1, unit=1, start_q=0):
+    """independent MusicXML position bookkeeping: returns [(onset, duration, step, alter, octave, voice, staff, grace, tie_start, tie_stop, rest)]
+
+    Two positions are kept: the raw sum of the written durations (``onset``/``dur``, what partitura's own reader
+    uses) and the musical position a standard reader computes by applying <divisions> in document order
+    (``onset_q``/``dur_q`` in 1/unit quarters: every duration counts unit/divisions, unit a common multiple of all
+    divisions values of the measure)."""
     out = []
     pos = start_pos
     last_onset = start_pos
+    div = div0
+    qpos = start_q
+    last_qonset = start_q
     for el in elements:
         tag = el.tag
-        if tag == "attributes" and el.find("divisions") is not None and on_divisions is not None:
-            on_divisions(pos, int(el.find("divisions").text))
+        if tag == "attributes" and el.find("divisions") is not None:
+            from engine import sym as _sym
+
+            div = int(_sym.realize(int(el.find("divisions").text)))  # concrete per shape; keeps unit // div linear
+            assert unit % div == 0, (unit, div)
+            if on_divisions is not None:
+                on_divisions(pos, div)
         if tag == "backup":
             pos = pos - int(el.find("duration").text)
+            qpos = qpos - int(el.find("duration").text) * (unit // div)
         elif tag == "forward":
             pos = pos + int(el.find("duration").text)
+            qpos = qpos + int(el.find("duration").text) * (unit // div)
         elif tag == "note":
             grace = el.find("grace") is not None
             chord = el.find("chord") is not None
             dur = 0 if grace else int(el.find("duration").text)
             onset = last_onset if chord else pos
+            qonset = last_qonset if chord else qpos
             p = el.find("pitch")
             rest = el.find("rest") is not None or p is None
             step = alter = octave = None
@@ -44,11 +60,14 @@ def interpret(elements, start_pos, on_divisions=None):
             staff = int(el.find("staff").text) if el.find("staff") is not None else None
             ties = [t.get("type") for t in el.findall("tie")]
             out.append(dict(onset=onset, dur=dur, step=step, alter=alter, octave=octave, voice=voice, staff=staff, grace=grace,
-                            tie_start="start" in ties, tie_stop="stop" in ties, rest=rest, id=el.get("id")))
+                            tie_start="start" in ties, tie_stop="stop" in ties, rest=rest, id=el.get("id"),
+                            onset_q=qonset, dur_q=dur * (unit // div)))
             if not grace:
                 if not chord:
                     last_onset = pos
                     pos = pos + dur
+                    last_qonset = qpos
+                    qpos = qpos + dur * (unit // div)
                 # a chord member does not move the position (same duration as the chord's first note)
     return out, pos
 
@@ -115,12 +134,21 @@ def make_measure(shape, q=4, pin_pitch=True):
             part.add(S.Words("dolce", staff=1), t0 + t_w)
             part.add(S.DynamicLoudnessDirection("p", staff=1) if hasattr(S, "DynamicLoudnessDirection") else S.Words("p", staff=1), t0 + on_a + 1) if on_a + 1 < bar else None
         seen_div = []
+        unit, chg = q, None
         if shape.startswith("divchange"):
             # divisions double at the half bar; notes do not cross the change
             half = bar // 2
-            require(on_a + d_a <= half)
-            require(on_b >= half)
-            exclude_known("KF-C03-gap-before-divisions-change", on_a + d_a != half)
+            unit, chg = 2 * q, t0 + half
+            if shape.startswith("divchange_x"):
+                # the second voice sounds before the change, the first after it (<backup> would have to cross the change
+                # if the measure were written as one segment)
+                require(on_b + d_b <= half)
+                require(on_a >= half)
+                exclude_known("KF-C03-gap-before-divisions-change", on_b + d_b != half)
+            else:
+                require(on_a + d_a <= half)
+                require(on_b >= half)
+                exclude_known("KF-C03-gap-before-divisions-change", on_a + d_a != half)
             part.set_quarter_duration(t0 + half, 2 * q)
             # (timeline ticks after the change are half as long: b keeps its tick values)
         if shape in ("rest_tie", "all"):
@@ -130,7 +158,9 @@ def make_measure(shape, q=4, pin_pitch=True):
             b.tie_next = S.Note("F", 3, alt_b, id="b2", voice=v_b, staff=st_b)
         state = {"note_id_counter": {}, "range_counter": {}}
         els = must_not_raise(EX.linearize_measure_contents, part, m.start, m.end, state, _what="linearize_measure_contents")
-        got, end_pos = interpret(els, t0, (lambda pos, d: seen_div.append((pos, d))))
+        # timeline ticks -> 1/unit quarters (the part has divisions q up to chg and 2q after it)
+        to_q = (lambda t: t * (unit // q)) if chg is None else (lambda t: t * 2 if t <= chg else chg * 2 + (t - chg))
+        got, end_pos = interpret(els, t0, (lambda pos, d: seen_div.append((pos, d))), div0=q, unit=unit, start_q=to_q(t0))
         if shape.startswith("divchange"):
             check(any(d == 2 * q for (_, d) in seen_div), "the divisions change is not written", seen_div)
             for (posd, d) in seen_div:
@@ -144,6 +174,10 @@ def make_measure(shape, q=4, pin_pitch=True):
             is_grace = isinstance(n, S.GraceNote)
             check(e["onset"] == n.start.t, "the file places the note at another onset", n.id, e["onset"], n.start.t)
             check(e["dur"] == (0 if is_grace else n.end.t - n.start.t), "the file gives the note another duration", n.id, e["dur"])
+            check(e["onset_q"] == to_q(n.start.t), "a reader applying <divisions> in document order hears the note at another time", n.id,
+                  e["onset_q"], to_q(n.start.t))
+            check(e["dur_q"] == (0 if is_grace else to_q(n.end.t) - to_q(n.start.t)),
+                  "a reader applying <divisions> in document order hears another duration", n.id, e["dur_q"])
             check(e["grace"] == is_grace, "grace flag", n.id)
             if isinstance(n, S.Rest):
                 check(e["rest"], "rest written as a pitched note")
@@ -166,7 +200,7 @@ def make_measure(shape, q=4, pin_pitch=True):
 
 
 def _inst(tier):
-    shapes = ["plain", "chord", "chord_uneq", "grace", "rest_tie", "direction", "divchange", "divchange_m2", "poly_two"] + (["all"] if tier != "quick" else [])
+    shapes = ["plain", "chord", "chord_uneq", "grace", "rest_tie", "direction", "divchange", "divchange_m2", "divchange_x", "divchange_x_m2", "poly_two"] + (["all"] if tier != "quick" else [])
     out = [{"shape": s} for s in shapes]
     if tier != "quick":
         out += [{"shape": "plain", "pin_pitch": False}, {"shape": "chord", "q": 6}]
